@@ -418,6 +418,40 @@ func ruleC12(c *Ctx, r *Report) {
 	if nArms < 2 {
 		r.Bad("C12-R4", "namespace-arms", "-", fmt.Sprintf("only %d Namespace arm(s) store a pseudonym under the flag (2 expected: top-level and sub-document arguments)", nArms))
 	}
+	// the string short forms {$out: "coll"}, {$unionWith: "coll"}, {$merge: "coll"}: the
+	// whole argument is a collection name and must get its pseudonym under the flag
+	{
+		found := false
+		for _, s := range p.sinks(p.Zone) {
+			if s.Kind != "set" {
+				continue
+			}
+			inSet, underFlag := false, false
+			for _, a := range p.atomsAt(s.Instr.Block()) {
+				if a.Kind == "inset" && a.Pol && p.Of(a.X)&oKEY != 0 {
+					have := map[string]bool{}
+					for _, m := range p.Tables.StringSets[a.Name] {
+						have[m] = true
+					}
+					if have["$out"] && have["$unionWith"] && have["$merge"] {
+						inSet = true
+					}
+				}
+				if a.Kind == "cfg" && a.Pol && a.Name == "redactNamespaces" {
+					underFlag = true
+				}
+			}
+			if !inSet || !underFlag {
+				continue
+			}
+			if hc, ok := peel(s.Val).(*ssa.Call); ok && hc.Call.StaticCallee() == hn && p.Of(hc.Call.Args[0])&oIN != 0 {
+				found = true
+			}
+		}
+		r.Check(found, "C12-R4", "stage-walker:namespace-stage-shorthand", c.Pos(root.Pos()),
+			"a string argument of $out / $unionWith / $merge is stored as HashName(value) under the flag",
+			"the string short forms {$out: \"coll\"}, {$unionWith: \"coll\"}, {$merge: \"coll\"} are not recognised as collection names: they become the generic placeholder (no longer the pseudonym the same collection has elsewhere) and stay in clear in selective mode")
+	}
 	// a Pipeline-typed array is a list of stages: it must be walked by the stage walker
 	// (which knows the Namespace / FieldName / Exempt typing of stage arguments), element
 	// by element - the query-array walker treats $lookup.from, $unionWith.coll ... of a
